@@ -22,7 +22,11 @@ LEVEL_TEXT = ("Lean: the value of a prefix is a group homomorphism on same-base 
               "(value_mul/div/pow/root); what Prefix.quantify returns in the model has that value; (p.u)**n and p**n . u**n evaluate "
               "to the SAME unit object in every history (unit_pow_prefix, through C02's canonical-identity theorem); "
               "Quantity.unprefixed multiplies the magnitude by exactly the prefix value and strips exactly the prefix "
-              "(unprefixed_value). For prefixes of different bases the implementation's float exponent e2*log b2/log b1 is proved "
+              "(unprefixed_value). AT THE LEVEL OF CONVERSIONS (the property's `target prefix divided out at the start of every "
+              "plan'): for single-factor units of any fundamental dimension, offsets included, a prefix on the source only scales the "
+              "magnitude and a prefix on the target is divided out AFTER the path - q.in_unit(p.u)*value(p) = q.in_unit(u) and "
+              "(m.(p.u)).in_unit(t) = ((m*value(p)).u).in_unit(t) in every state (flat_prefix_laws, from convert_flat_single). "
+              "For prefixes of different bases the implementation's float exponent e2*log b2/log b1 is proved "
               "exact over the reals (cross_base_mul/div/pow in C11Real, Mathlib rpow), so the 1e-9 is rounding only. Per run: every "
               "registered prefix is normalised with key = attributes, and the same-base algebra is total on the shipped prefixes "
               "(decide +kernel). Tied to the code by differential execution and an exact SI-value oracle over all registered "
@@ -39,8 +43,9 @@ THEOREMS = [
     "Measured.C11.cross_base_mul", "Measured.C11.cross_base_div", "Measured.C11.cross_base_pow",
     "Measured.Obligations.prefixes_wellformed", "Measured.Obligations.prefixes_closed",
     "Measured.Obligations.shipped_unit_pow_prefix",
+    "Measured.flat_prefix_laws", "Measured.convert_flat_single",
 ]
-LEAN_TARGETS = ["Props.C11", "Props.C11Real", "Obligations.C11"]
+LEAN_TARGETS = ["Props.C11", "Props.C11Real", "Proofs.Flat", "Obligations.C11"]
 QUICK = {"chunks": 4, "ops": 1000}
 THOROUGH = {"chunks": 16, "ops": 6000}
 RTOL = 1e-11
